@@ -19,7 +19,7 @@ EXTENDS Integers, Sequences, Json, TLC
 CONSTANT MaxLen
 
 Lexemes == <<
-  "x", "y", "1", "0", "2.5", "65535", "70000", "\"s\"", "'q'", "\"", "'", "/a/", "/a/i", "/", "\\", "//", "\n",
+  "x", "y", "1", "0", "2.5", "65535", "70000", "\"s\"", "'q'", "\"", "'", "/a/", "/a/i", "/(?i/", "/(?:a|b/", "/(?i:a)b/", "/(?/", "/)(/", "/", "\\", "//", "\n",
   "(", ")", "[", "]", "{", "}", ",", ";", ":", "?", ".", "..",
   "=", "==", "!=", "<", "<=", ">", ">=", "~=", "!~", "&&", "||", "&", "|", "~",
   "+", "-", "*", "**", "%", "++", "--", "+=", "-=", "*=", "/=", "!", "sqrt",
